@@ -473,6 +473,8 @@ def table(den):
         if key.startswith("tr") and key[2:].isdigit():
             ent = tr_norm(ent) + [star]
         t[("data", key)] = ent
+    t[("meta", "mode-card")] = ("data", "mode") in t
+    t.setdefault(("data", "mode"), ["n"])  # MCNP's default
     return t
 
 
@@ -532,7 +534,7 @@ def _geom_renumber(words, old, new, cells):
         body = w.lstrip("#")
         is_cell = prev_hash or w.startswith("#")
         sign = ""
-        if body[:1] in "+-":
+        if body[:1] in ("+", "-"):
             sign, body = body[0], body[1:]
         if body.isdigit() and int(body) == old and is_cell == cells:
             w = w[: len(w) - len(body)] + str(new)
@@ -628,6 +630,12 @@ def abstract_apply(A, t, e, touched):
         for j in range(len(A["cell_number"])):
             if A["fill_tr"][j] == i and A["fill"][j] is not None:
                 cell_fill(j)
+            elif A["fill_tr"][j] == i:
+                # a matrix fill with a named transform: the number between the parentheses
+                vals = list(t.get(("cell", j, "fill", None)) or [])
+                if len(vals) >= 3 and vals[-1] == ")" and vals[-3] == "(":
+                    vals[-2] = Fraction(n)
+                    put(("cell", j, "fill", None), vals)
     elif op == "uniNumber":
         i, n = e[1], dec(e[2])
         A["uni_number"][i] = n
